@@ -20,6 +20,18 @@ for p in props:
                                             getattr(m, "LEVEL_TEXT", "").replace("|", "\\|").replace("\n", " ")))
     except Exception as e:  # noqa: BLE001
         out.append("| %s | no | 0 | (module not present yet) |" % pid)
+import glob
+out += ["", "## 13. Seeded breaking changes and which check catches them (generated from seeded/*/meta.json)\n",
+        "Each change was written by a fresh sub-agent that saw only the property text and a scratch worktree (nothing from /verif), then "
+        "re-confirmed by the lead in a fresh worktree (`harness/seeded_tool.py confirm`: demo passes without / fails with the patch, every "
+        "BASELINE stable_pass test still passes). `eval` = `REDUN_REPO=<worktree with patch> ./check <id> --tier quick`.\n",
+        "| seeded | property | needs | check exit | first violation signatures |", "|---|---|---|---|---|"]
+for mf in sorted(glob.glob(os.path.join(VERIF, "seeded", "*", "meta.json"))):
+    m = json.load(open(mf))
+    r = (m.get("check_results") or {}).get("quick") or {}
+    sigs = "; ".join(sorted({(v.get("signature") or v.get("kind") or "?") for v in r.get("violations", [])}))
+    out.append("| %s | %s | %s | %s | %s |" % (m.get("name"), m.get("property"), (m.get("needs") or "see NOTES.md").replace("|", "\\|")[:160],
+                                             r.get("exit", "not run"), sigs))
 text = "\n".join(out) + "\n"
 path = os.path.join(VERIF, "DESIGN.md")
 s = open(path).read()
